@@ -318,26 +318,28 @@ func checkTimed(t *rapid.T, st *stats.Collector, run func() verdict, describe fu
 	if v.safety != "" {
 		t.Fatalf("%s\ncase: %s", v.safety, describe())
 	}
-	if v.inconclusive {
-		st.Inconclusive()
-		return v, false
-	}
 	if v.timing != "" {
-		for i := 0; i < 3; i++ {
+		// runs during which the canary overslept are not counted either way
+		refails := 0
+		for attempt := 0; attempt < 10 && refails < 3; attempt++ {
 			r := run()
 			if r.safety != "" {
 				t.Fatalf("%s\ncase: %s", r.safety, describe())
 			}
 			if r.inconclusive {
-				st.Inconclusive()
-				return v, false
+				continue
 			}
 			if r.timing == "" {
-				st.Class("timing_noise_not_reproduced", 1)
+				st.Class("timing_suspect_not_confirmed", 1)
 				return r, true
 			}
+			refails++
 		}
-		t.Fatalf("%s (re-failed 3 times in a row)\ncase: %s", v.timing, describe())
+		if refails == 3 {
+			t.Fatalf("%s (re-failed 3 times in a row)\ncase: %s", v.timing, describe())
+		}
+		st.Inconclusive()
+		return v, false
 	}
 	return v, true
 }
@@ -578,6 +580,10 @@ func runBaseLeecher(c blCase) verdict {
 		}
 	}
 	if !terminateCalled {
+		h.mu.Lock()
+		h.log = append(h.log, "Terminate() [end of case]")
+		h.terminating = true
+		h.mu.Unlock()
 		h.d.Terminate()
 	}
 	h.d.Wg.Wait()
